@@ -122,7 +122,7 @@ def gen_scn(rng, idx=0):
     feats = ['nul'] if rng.random() < 0.7 else ['high']
     # table representations are stratified over the scenario index: each one is visited
     tables = scenario.TABLE_OPTS[idx % len(scenario.TABLE_OPTS)]
-    sc = scenario.gen_scenario(rng, want={'feats': tuple(feats), 'flavors': ['nr', 'nr', 'r', 'r', 'c99'], 'tables': tables}, forbid=('vtrail',))
+    sc = scenario.gen_scenario(rng, want={'feats': tuple(feats), 'flavors': ['nr', 'nr', 'r', 'r', 'c99', 'cxx'], 'tables': tables}, forbid=('vtrail',))
     sc.buf_size = None
     # matches that END on the special byte, with a longer rule that continues after it: the scanner must
     # remember the position after the NUL as its back-up point
@@ -201,6 +201,7 @@ def work(ctx, idx):
             wr.notes.append('scn %d unbuildable: %s' % (idx, (ba.msg or bb.msg).strip()[:200]))
         return wr
     wr.scenarios = 1
+    wr.stats['back-end:' + sc.flavor] += 1
     plans = gen_plans(rng, sc, cfg)
     ra = common.run_batch(ba.exe, [(k, p.text()) for k, p in plans])
     rb = common.run_batch(bb.exe, [(k, relabel_plan(p, perm).text()) for k, p in plans])
